@@ -336,7 +336,8 @@ def hb_before_open(seed, tier):
 def randoms(seed, tier):
     r = random.Random(seed * 104729 + 5)
     n = 14 if tier == 'quick' else 150
-    return [('random#%d' % k, G.random_history(r, n_ops=r.choice([30, 40, 60]))) for k in range(n)]
+    return [('random#%d' % k, G.random_history(r, n_ops=r.choice([30, 40, 60]))) for k in range(n)] + \
+           [('random-api#%d' % k, G.random_history_api(r, n_ops=r.choice([30, 40]))) for k in range(max(4, n // 3))]
 
 
 # ---------------------------------------------------------------------------------------------------------------------------
